@@ -1230,6 +1230,16 @@ pub fn run(case: &Case, ctx: &mut Ctx) -> R {
     Ok(())
 }
 
+fn guards_strategy(_tier: Tier) -> BoxedStrategy<super::c06b::GCase> {
+    super::c06b::strategy_for_example("multisig-smart-account")
+}
+fn run_guards(case: &super::c06b::GCase, ctx: &mut Ctx) -> R {
+    super::c06b::run(case, ctx).map_err(|mut v| {
+        v.signature = v.signature.replacen("C06/example-guards/", "C03/guards/", 1);
+        v
+    })
+}
+
 pub fn property() -> Property {
     Property {
         id: "C03",
@@ -1238,9 +1248,18 @@ pub fn property() -> Property {
                then 1..4 probes of __check_auth (per signer absent/good/bad incl. unknown signers and delegated signers with/without auth entry; 1..3 contexts from call T0/T1/T2, create W0/W1; \
                scripted can_enforce/enforce per policy and rule); 1/5 of the cases use the real Ed25519 verifier; call-only probes are partly repeated end-to-end. \
                non-trivial = some probed context has >= 2 live candidate rules AND the statement's verdicts over the probes include both accept and reject; distinct = distinct serialised case",
-        subs: vec![Box::new(Gen::<Case> { name: "check-auth", quick: 1500, thorough: 25000, strategy, run, max_shrink_iters: 2500 })],
+        subs: vec![
+            Box::new(Gen::<Case> { name: "check-auth", quick: 1500, thorough: 25000, strategy, run, max_shrink_iters: 2500 }),
+            // the example account's self-administration entry points ("Requires smart account authorization") under six
+            // authorization variants: rows of the guard audit of props/c06b.rs for this example, whose file C03 anchors
+            gen_sub::<super::c06b::GCase>("account-guards", 60, 1200, guards_strategy, run_guards),
+        ],
         floors: vec![
             ("nontrivial", 50, 800),
+            ("eg_exact_ok:multisig-smart-account.add_signer", 10, 100),
+            ("eg_exact_ok:multisig-smart-account.remove_signer", 10, 100),
+            ("eg_exact_ok:multisig-smart-account.add_context_rule", 10, 100),
+            ("eg_exact_ok:multisig-smart-account.execute", 10, 100),
             ("expired_rule_skipped", 100, 1600),
             ("candidate_at_valid_until_ledger", 90, 1440),
             ("default_fallback_after_specific_unmet", 20, 320),
